@@ -44,6 +44,7 @@ type Op struct {
 	// threads at a seam the simulator owns; nothing runs in parallel. Both results must be what the specification says.
 	OverlapAt    int    `json:"overlap_at,omitempty"`
 	OverlapIndex uint32 `json:"overlap_index,omitempty"`
+	OverlapWhat  string `json:"overlap_what,omitempty"` // "" = DeriveChild(OverlapIndex) | "public" = Public() and Fingerprint() of the same key
 }
 
 // Config is one run: a curve, a fault plan and a list of operations.
@@ -89,6 +90,7 @@ type world struct {
 	ovErr    error
 	ovPanic  string
 	ovCalls  int
+	ovPublic bool
 	specCalls  int // steps of the specification's retry chain for the current operation (known before the real call)
 }
 
@@ -293,6 +295,11 @@ func (w *world) seam() {
 				w.ovPanic = fmt.Sprintf("%v\n%s", p, debug.Stack())
 			}
 		}()
+		if w.ovPublic {
+			w.ovKey = w.ovSrc.Public()
+			_ = w.ovKey.Fingerprint()
+			return
+		}
 		w.ovKey, w.ovErr = w.ovSrc.DeriveChild(w.ovIndex)
 	}()
 	w.ovRan, w.ovCalls = true, w.calls
@@ -529,7 +536,11 @@ func (r *runState) step(i int, op *Op, fc faultCurve, mc *ref.SlipCurve) {
 			case r.cfg.Curve == "ed25519":
 				ix |= 1 << 31
 			}
-			ovModel, ovKind = src.model.Child(ix, &ref.Faults{Reject: w.reject, Warp: w.warp})
+			if w.ovPublic = op.OverlapWhat == "public"; w.ovPublic {
+				ovModel, ovKind = src.model.Neuter(), ref.OK
+			} else {
+				ovModel, ovKind = src.model.Child(ix, &ref.Faults{Reject: w.reject, Warp: w.warp})
+			}
 			w.ovArmed, w.ovAt, w.ovCount, w.ovSrc, w.ovIndex, w.ovRan, w.ovKey, w.ovErr, w.ovPanic = true, op.OverlapAt, 0, src.real, ix, false, nil, nil, ""
 		}
 		call(func() { real, err = src.real.DeriveChild(op.Index) })
@@ -537,7 +548,10 @@ func (r *runState) step(i int, op *Op, fc faultCurve, mc *ref.SlipCurve) {
 		if w.ovRan {
 			r.res.Probes["derivation_overlapped_by_another_of_the_same_parent"] = 1
 			osig := map[string]any{"curve": r.cfg.Curve, "api": "DeriveChild(overlapping)", "parent": parent, "hardened": w.ovIndex >= 1<<31}
-			owhere := fmt.Sprintf("op %d on %s: DeriveChild(#%d, %d) made by another caller while DeriveChild(#%d, %d) of the same extended key was at its call %d into the pluggable key", i, r.cfg.Curve, srcIndex(op.Src, len(r.handles)), w.ovIndex, srcIndex(op.Src, len(r.handles)), op.Index, op.OverlapAt)
+			if w.ovPublic {
+				r.res.Probes["public_taken_while_deriving_from_the_same_key"] = 1
+			}
+			owhere := fmt.Sprintf("op %d on %s: DeriveChild(#%d, %d) (or Public() and Fingerprint(), if so configured) made by another caller while DeriveChild(#%d, %d) of the same extended key was at its call %d into the pluggable key", i, r.cfg.Curve, srcIndex(op.Src, len(r.handles)), w.ovIndex, srcIndex(op.Src, len(r.handles)), op.Index, op.OverlapAt)
 			switch {
 			case w.ovPanic != "":
 				r.violate("panic:overlapping-derivation", owhere+": "+w.ovPanic, osig)
@@ -851,7 +865,7 @@ func Gen(seed uint64, tier string) *Config {
 		case x < 60:
 			o = Op{Kind: "child", Src: r.IntN(16), Index: genIndex()}
 			if r.IntN(8) == 0 {
-				o.OverlapAt, o.OverlapIndex = 1+r.IntN(3), genIndex()
+				o.OverlapAt, o.OverlapIndex, o.OverlapWhat = 1+r.IntN(3), genIndex(), pickS(r, "", "", "public")
 			}
 		case x < 63 && c.Curve == "nist256p1":
 			// an imported public parent whose next non-hardened child is a point with x = 0, and that child right away
